@@ -42,6 +42,9 @@ def has_finished(data: bytes) -> bool:
     return False
 
 
+HRR_RANDOM = bytes.fromhex("cf21ad74e59a6111be1d8c021e65b891c2a211167abb8c5e079e09e2c8a8339c")
+
+
 class TlsConn:
     """shape keys (all optional):
       abbreviated(bool) sid_len(0..32) ext('none'|'noblock'|'empty'|'etm'|'unrelated'|'sv_first')
@@ -61,6 +64,7 @@ class TlsConn:
         self.etm = shape.get("ext") == "etm" and suite.mode == "CBC" and ver != R.TLS13
         self.rec_ver = R.TLS12 if ver == R.TLS13 else ver
         self.nrec = 0
+        self.apsecret, self.kugen = {}, {"c": 0, "s": 0}
         if ver == R.TLS13:
             self.secrets = {lab: g(R.HLEN[suite.prf]) for lab in R.LABELS13}
             self.keylog = R.keylog_lines(ver, self.cr, secrets13={
@@ -146,8 +150,15 @@ class TlsConn:
         shm = R.server_hello(ver, self.sr, ssid, sh.get("sh_suite_override", s.code), hello_ver=sh.get("hello_ver"),
                              compression=sh.get("compression", 0), **self._exts("s"))
         if ver == R.TLS13:
+            if sh.get("hrr"):           # HelloRetryRequest (RFC 8446 4.1.4): a ServerHello with the fixed random, then a second ClientHello
+                hrr = R.server_hello(ver, HRR_RANDOM, ssid, s.code, exts=R.EXT_SV13_SH + R.ext(51, struct.pack("!H", 0x0017)))
+                self._plain_hs("s", "HRR", [hrr])
+                if sh.get("ccs13", True):
+                    self._add("s", "CCS", R.record(20, self.rec_ver, b"\x01"))
+                    self._add("c", "CCS", R.record(20, self.rec_ver, b"\x01"))
+                self._plain_hs("c", "CH2", [ch], ver=R.TLS12)
             self._plain_hs("s", "SH", [shm])
-            if sh.get("ccs13", True):
+            if sh.get("ccs13", True) and not sh.get("hrr"):
                 self._add("s", "CCS", R.record(20, self.rec_ver, b"\x01"))
             msgs = [R.hs_msg(8, struct.pack("!H", 0)), R.hs_msg(11, b"\x00" + (3 + 3 + 40).to_bytes(3, "big") + (40).to_bytes(3, "big") + g(40) + b"\x00\x00"),
                     R.hs_msg(15, struct.pack("!HH", 0x0804, 32) + g(32)), R.hs_msg(20, g(R.HLEN[s.prf]))]
@@ -203,6 +214,19 @@ class TlsConn:
         """post-handshake NewSessionTicket (TLS 1.3), protected under the server application key"""
         body = struct.pack("!II", 7200, 1) + b"\x08" + self.g(8) + struct.pack("!H", 32) + self.g(32) + b"\x00\x00"
         return self._enc("s", 22, R.hs_msg(4, body), "HS13")
+
+    def key_update(self, d, request=False):
+        """TLS 1.3 KeyUpdate (RFC 8446 4.6.3 / 7.2): the message travels under the current application key, everything after it in
+        direction d under the next generation application_traffic_secret_N+1 = HKDF-Expand-Label(secret_N, "traffic upd", "", Hash.length)"""
+        assert self.ver == R.TLS13
+        r = self._enc(d, 22, R.hs_msg(24, bytes([1 if request else 0])), "KU13")
+        lab = "CLIENT_TRAFFIC_SECRET_0" if d == "c" else "SERVER_TRAFFIC_SECRET_0"
+        sec = self.apsecret.get(d) or self.secrets[lab]
+        nxt = R.hkdf_expand_label(self.suite.prf, sec, b"traffic upd", b"", R.HLEN[self.suite.prf])
+        self.apsecret[d] = nxt
+        self.kugen[d] += 1
+        self.cur[d] = R.DirState(self.suite, self.ver, *R.tls13_traffic_keys(self.suite, nxt), None, rnd=self.g)
+        return r
 
     def alert(self, d, level=1, desc=0):
         if self.cur[d] is not None:
